@@ -15,8 +15,9 @@
 -/
 import WaveletsVerif.Properties.C17T
 import WaveletsVerif.Properties.C05K
+import WaveletsVerif.Properties.C07M
 namespace WV.C05T
-open Finset WV WV.C04 WV.C04Q WV.C06 WV.C05D WV.C05S WV.C05P WV.C17K WV.C17T WV.C05K
+open Finset WV WV.C04 WV.C04Q WV.C06 WV.C05D WV.C05S WV.C05P WV.C17K WV.C17T WV.C05K WV.C07M
 variable {R : Type} [CommRing R]
 
 /-- **`SFB1D.backward` is the adjoint of `SFB1D.forward` in periodization mode**: for any synthesis filters `g0, g1` of one even
@@ -119,6 +120,136 @@ theorem DWTInverse_per_adjoint (J : Nat) (dy : Img R) (H W : Nat) (gl : Img R) (
   exact ⟨y, yl, yh, hi, ry, bwd_eq_fwd gr0 gr1 gc0 gc1 hLr hLre hgr hLc hLce hgc J dy H W hdy hH hW hok yl yh hf, hd.symm⟩
 
 end twod
+
+
+/-! ### every number of channels -/
+
+section channels
+variable (wr0 wr1 wc0 wc1 : List R) (hLr : 2 ≤ wr0.length) (hLre : wr0.length % 2 = 0) (hwr : wr1.length = wr0.length)
+    (hLc : 2 ≤ wc0.length) (hLce : wc0.length % 2 = 0) (hwc : wc1.length = wc0.length) (H W : Nat)
+    (hHe : H % 2 = 0) (hWe : W % 2 = 0) (hfH : wc0.length ≤ H) (hfW : wr0.length ≤ W)
+
+include hLr hLre hwr hLc hLce hwc hHe hWe hfH hfW in
+/-- the channel-stack statement with the buffers written as reversed analysis filters and the band sizes as `(H + H % 2) / 2` -/
+theorem SFB2D_per_adjoint_channels_aux (lows dys : List (Img R)) (highs : List (List (Img R))) (hl1 : highs.length = lows.length)
+    (hl2 : dys.length = lows.length)
+    (hr : ∀ c < lows.length, Rect (lows.getD c []) ((H + H % 2) / 2) ((W + W % 2) / 2) ∧
+      ∀ k < 3, Rect ((highs.getD c []).getD k []) ((H + H % 2) / 2) ((W + W % 2) / 2))
+    (hd : ∀ c < lows.length, Rect (dys.getD c []) H W) :
+    ∃ ys dlows dhighs, SFB2D_forward .periodization wr0.reverse wr1.reverse wc0.reverse wc1.reverse lows highs = some ys ∧
+      SFB2D_backward .periodization wr0.reverse wr1.reverse wc0.reverse wc1.reverse dys = some (dlows, dhighs) ∧
+      ∀ c < lows.length,
+        dot2 H W (dys.getD c []) (ys.getD c [])
+          = dot2 ((H + H % 2) / 2) ((W + W % 2) / 2) (dlows.getD c []) (lows.getD c [])
+            + dot2 ((H + H % 2) / 2) ((W + W % 2) / 2) ((dhighs.getD c []).getD 0 []) ((highs.getD c []).getD 0 [])
+            + dot2 ((H + H % 2) / 2) ((W + W % 2) / 2) ((dhighs.getD c []).getD 1 []) ((highs.getD c []).getD 1 [])
+            + dot2 ((H + H % 2) / 2) ((W + W % 2) / 2) ((dhighs.getD c []).getD 2 []) ((highs.getD c []).getD 2 []) := by
+  have hH : 1 ≤ H := by omega
+  have hW : 1 ≤ W := by omega
+  have eH2 : (H + H % 2) / 2 = H / 2 := by omega
+  have eW2 : (W + W % 2) / 2 = W / 2 := by omega
+  have hKh : 1 ≤ (H + H % 2) / 2 := by omega
+  have hKw : 1 ≤ (W + W % 2) / 2 := by omega
+  -- the analysis bank (= the backward pass) on the stack of cotangents
+  have eW : ∀ (w : List R), 2 ≤ w.length → w.length % 2 = 0 → w.length ≤ W + W % 2 → ∀ (x : Img R), Rect x H W →
+      alongO .W (afb1dOne .periodization w.reverse) x = some (alongW (Ap w) x) := by
+    intro w hw hwe hfit x hx
+    show alongWO _ x = _
+    apply alongWO_total
+    intro c hc
+    exact C01.afb1dOne_per_eq_dwt_partial_all w c hwe hw (by rw [hx.2 c hc]; exact hW) (by rw [hx.2 c hc]; exact hfit)
+  have eH : ∀ (w : List R), 2 ≤ w.length → w.length % 2 = 0 → w.length ≤ H + H % 2 → ∀ (y : Img R), y.length = H →
+      alongO .H (afb1dOne .periodization w.reverse) y = some (alongH (Ap w) y) := by
+    intro w hw hwe hfit y hy
+    show alongHO _ y = _
+    apply alongHO_total
+    intro c hc
+    exact C01.afb1dOne_per_eq_dwt_partial_all w c hwe hw (by rw [hc, hy]; exact hH) (by rw [hc, hy]; exact hfit)
+  have rl : ∀ (w : List R) (x : Img R), Rect x H W → (alongW (Ap w) x).length = H := by
+    intro w x hx
+    rw [alongW_get' (Ap w) x H W _ hx (fun c hc => by rw [Ap_length, hc])]
+    exact (tab2_rect _ _ _).1
+  have hd' : ∀ c < dys.length, Rect (dys.getD c []) H W := by rw [hl2]; exact hd
+  have hbwd := AFB2D_forward_channels .periodization wr0.reverse wr1.reverse wc0.reverse wc1.reverse dys
+    (alongW (Ap wr0)) (alongW (Ap wr1)) (alongH (Ap wc0)) (alongH (Ap wc1))
+    (fun c hc => ⟨eW wr0 hLr hLre (by omega) _ (hd' c hc), eW wr1 (by omega) (by omega) (by omega) _ (hd' c hc)⟩)
+    (fun c hc y hy => by
+      have hyl : y.length = H := by
+        rcases hy with rfl | rfl
+        · exact rl _ _ (hd' c hc)
+        · exact rl _ _ (hd' c hc)
+      exact ⟨eH wc0 hLc hLce (by omega) y hyl, eH wc1 (by omega) (by omega) (by omega) y hyl⟩)
+  -- the synthesis bank on the stack of coefficients
+  have hSc := sfb_per_val wc0 wc1 hLc hwc ((H + H % 2) / 2) hKh (by omega)
+  have hSr := sfb_per_val wr0 wr1 hLr hwr ((W + W % 2) / 2) hKw (by omega)
+  have lSc : ∀ a b : List R, a.length = (H + H % 2) / 2 → (Ip wc0.reverse wc1.reverse a b).length = 2 * ((H + H % 2) / 2) :=
+    fun a b ha => by rw [Ip_length, ha]
+  have lSr : ∀ a b : List R, a.length = (W + W % 2) / 2 → (Ip wr0.reverse wr1.reverse a b).length = 2 * ((W + W % 2) / 2) :=
+    fun a b ha => by rw [Ip_length, ha]
+  have hfwd := SFB2D_forward_channels .periodization wr0.reverse wr1.reverse wc0.reverse wc1.reverse lows highs hl1
+    (colzip (Ip wc0.reverse wc1.reverse) (2 * ((H + H % 2) / 2)) ((W + W % 2) / 2))
+    (rowzip (Ip wr0.reverse wr1.reverse) (2 * ((H + H % 2) / 2)) (2 * ((W + W % 2) / 2)))
+    (fun c hc => sfb1dImg_H_gen .periodization _ _ _ _ _ hSc lSc _ _ _ (hr c hc).1 ((hr c hc).2 0 (by omega)) hKh hKw)
+    (fun c hc => sfb1dImg_H_gen .periodization _ _ _ _ _ hSc lSc _ _ _ ((hr c hc).2 1 (by omega)) ((hr c hc).2 2 (by omega)) hKh hKw)
+    (fun c hc => sfb1dImg_W_gen .periodization _ _ _ _ _ hSr lSr _ _ _ (colzip_rect _ _ _ _ _) (colzip_rect _ _ _ _ _))
+  refine ⟨_, _, _, hfwd, by rw [C05S.SFB2D_backward_eq]; exact hbwd, ?_⟩
+  intro c hc
+  have q1 := (hr c hc).1
+  have q2 := (hr c hc).2 0 (by omega)
+  have q3 := (hr c hc).2 1 (by omega)
+  have q4 := (hr c hc).2 2 (by omega)
+  rw [eH2, eW2] at q1 q2 q3 q4
+  obtain ⟨ll, lh, hl, hh, y, hf, hi, _, _, _, _, _, hid⟩ := C17T.inverse_is_transpose wr0 wr1 wc0 wc1 hLr hLre hwr hLc hLce hwc H W hHe hWe
+    hfH hfW (dys.getD c []) (lows.getD c []) ((highs.getD c []).getD 0 []) ((highs.getD c []).getD 1 []) ((highs.getD c []).getD 2 [])
+    (hd c hc) q1 q2 q3 q4
+  rw [C05P.AFB2D_forward_val wr0 wr1 wc0 wc1 hLr hLre hwr hLc hLce hwc H W hH hW (by omega) (by omega) _ (hd c hc)] at hf
+  rw [(C17T.SFB2D_forward_per_val wr0 wr1 wc0 wc1 hLr hwr hLc hwc H W hHe hWe hfH hfW _ _ _ _ q1 q2 q3 q4).1] at hi
+  simp only [Option.some.injEq, Prod.mk.injEq, List.cons.injEq, and_true] at hf hi
+  obtain ⟨hf1, hf2, hf3, hf4⟩ := hf
+  subst hf1 hf2 hf3 hf4 hi
+  rw [getD_tab, getD_tab, getD_tab, if_pos hc, if_pos (by omega), if_pos (by omega)]
+  simp only [List.getD_cons_zero, List.getD_cons_succ]
+  unfold dxFullP at hid
+  simp only [eH2, eW2] at hid ⊢
+  exact hid.symm
+
+end channels
+
+section channels_g
+variable (gr0 gr1 gc0 gc1 : List R) (hLr : 2 ≤ gr0.length) (hLre : gr0.length % 2 = 0) (hgr : gr1.length = gr0.length)
+    (hLc : 2 ≤ gc0.length) (hLce : gc0.length % 2 = 0) (hgc : gc1.length = gc0.length)
+
+include hLr hLre hgr hLc hLce hgc in
+/-- **`SFB2D.backward` is the adjoint of `SFB2D.forward` in periodization mode on every number of channels**, channel by channel,
+for any even-length synthesis filters and every even output size `H × W` not smaller than the filters -/
+theorem SFB2D_per_adjoint_channels (H W : Nat) (hHe : H % 2 = 0) (hWe : W % 2 = 0) (hfH : gc0.length ≤ H) (hfW : gr0.length ≤ W)
+    (lows dys : List (Img R)) (highs : List (List (Img R))) (hl1 : highs.length = lows.length) (hl2 : dys.length = lows.length)
+    (hr : ∀ c < lows.length, Rect (lows.getD c []) (H / 2) (W / 2) ∧ ∀ k < 3, Rect ((highs.getD c []).getD k []) (H / 2) (W / 2))
+    (hd : ∀ c < lows.length, Rect (dys.getD c []) H W) :
+    ∃ ys dlows dhighs, SFB2D_forward .periodization gr0 gr1 gc0 gc1 lows highs = some ys ∧
+      SFB2D_backward .periodization gr0 gr1 gc0 gc1 dys = some (dlows, dhighs) ∧
+      ∀ c < lows.length,
+        dot2 H W (dys.getD c []) (ys.getD c [])
+          = dot2 (H / 2) (W / 2) (dlows.getD c []) (lows.getD c [])
+            + dot2 (H / 2) (W / 2) ((dhighs.getD c []).getD 0 []) ((highs.getD c []).getD 0 [])
+            + dot2 (H / 2) (W / 2) ((dhighs.getD c []).getD 1 []) ((highs.getD c []).getD 1 [])
+            + dot2 (H / 2) (W / 2) ((dhighs.getD c []).getD 2 []) ((highs.getD c []).getD 2 []) := by
+  have eH2 : (H + H % 2) / 2 = H / 2 := by omega
+  have eW2 : (W + W % 2) / 2 = W / 2 := by omega
+  have := SFB2D_per_adjoint_channels_aux gr0.reverse gr1.reverse gc0.reverse gc1.reverse (by simpa using hLr) (by simpa using hLre)
+    (by simp [hgr]) (by simpa using hLc) (by simpa using hLce) (by simp [hgc]) H W hHe hWe (by simpa using hfH) (by simpa using hfW)
+    lows dys highs hl1 hl2 (by rw [eH2, eW2]; exact hr) hd
+  simp only [List.reverse_reverse] at this
+  rw [eH2, eW2] at this
+  exact this
+
+end channels_g
+
+/-- the per-channel hypotheses are satisfiable: a two-channel stack of 1 × 1 coefficient images, 2 × 2 cotangents, two-tap filters -/
+example : ∀ c < ([[[1]], [[5]]] : List (Img Int)).length, Rect (([[[1]], [[5]]] : List (Img Int)).getD c []) (2 / 2) (2 / 2) := by
+  intro c hc
+  simp only [List.length_cons, List.length_nil] at hc
+  interval_cases c <;> simp [Rect]
 
 /-- non-vacuity: a 4 × 4 cotangent, two levels, two-tap filters meet `LevelsOK2` -/
 example : LevelsOK2 2 2 2 4 4 := by simp [LevelsOK2]
